@@ -320,6 +320,26 @@ GROUPS["cnf_parser_t2"] = dict(_MODEL, **{
     ],
 })
 
+GROUPS["cnf_clause_lits_t1"] = dict(GROUPS["cnf_parser_t2"], **{
+    "name": "cnf_clause_lits_t1",
+    "prefix": "token::verif_cl::",
+    "overlay": [("flussab-cnf/src/token.rs", "stub", "harness/cnf/token_stub.rs"),
+                ("flussab-cnf/src/token.rs", "cl", "harness/cnf/clause_lits_t1.rs")],
+    "inject": _stub_injects("flussab-cnf/src/token.rs", [s for s in _CNF_TOKEN_SPECS if s[0] != "clause_lits"]),
+    "flags": ["--default-unwind", "7"],
+    "harnesses": [
+        ("clause_lits_i8", {"props": ["C06", "C05", "C08", "C04", "C07"], "cost": 6, "what": "REAL clause_lits::<i8> over contract stubs for int / line breaks: exactly the literals before the 0, each within +-limit and unchanged by the cast; out-of-range literal rejected; mark set before every number"}),
+        ("clause_lits_i32", {"props": ["C06"], "cost": 6, "what": "clause_lits::<i32>"}),
+        ("clause_lits_isize", {"props": ["C06", "C08"], "cost": 6, "what": "clause_lits::<isize>"}),
+        ("dimacs_cast_i8", {"props": ["C06"], "cost": 1, "what": "Dimacs for i8: from_dimacs/dimacs inverse and injective on [-MAX_DIMACS, MAX_DIMACS], MAX_DIMACS and its negation representable"}),
+        ("dimacs_cast_i16", {"props": ["C06"], "cost": 1, "what": "Dimacs for i16"}),
+        ("dimacs_cast_i32", {"props": ["C06"], "cost": 1, "what": "Dimacs for i32"}),
+        ("dimacs_cast_i64", {"props": ["C06"], "cost": 1, "what": "Dimacs for i64"}),
+        ("dimacs_cast_isize", {"props": ["C06"], "cost": 1, "what": "Dimacs for isize"}),
+        ("reach_clause_lits", {"kind": "reach", "cost": 5, "what": "vacuity twin"}),
+    ],
+})
+
 _AIGER_TOKEN_SPECS = [
     ("unexpected", "input, expected", "", None), ("fixed", "input, fixed", "", None),
     ("fixed_not_eol", "input, fixed", "", None), ("space", "input", "", None),
@@ -582,7 +602,7 @@ PROPERTIES["C14"] = {
 
 PROPERTIES["C07"] = {
     "level": "other",
-    "groups": ["cnf_token_t0", "cnf_token_small", "text_t0", "cnf_parser_t2", "wcnf_parser_t2", "gcnf_parser_t2"],
+    "groups": ["cnf_token_t0", "cnf_token_small", "text_t0", "cnf_parser_t2", "wcnf_parser_t2", "gcnf_parser_t2", "cnf_clause_lits_t1"],
     "claim": "Layout independence is decided as a set of token-level lemmas, each a SAT-based bounded model check of the real tokenizer function on a fully symbolic window: every token consumes itself plus the maximal run of blanks, its value ignores leading zeros and '-0', newline = LF|CRLF, comments and blank lines are skipped as units, end of word = blank/CR/LF/end. The step from the lemmas to whole documents is a paper induction over the token sequence (parsers are sequential and only see the input through these functions).",
     "level_note": "Window N bytes per token; document-level composition is by induction, not by a solver run (whole-parser symbolic execution is out of reach, DESIGN.md section 1). Statement loops of the parsers are covered by the T2 harnesses where present.",
     "functions": ["flussab_cnf::token::{is_end_of_word, word, fixed, uint, int, braced_uint, comment, interactive_strict_comment, interactive_skip_line, newline, interactive_newline, eof, interactive_end_of_line, skip_whitespace, non_terminating_linebreaks}", "flussab::text::{tabs_or_spaces, newline}"],
@@ -594,7 +614,7 @@ PROPERTIES["C07"] = {
 
 PROPERTIES["C06"] = {
     "level": "model_checking",
-    "groups": ["cnf_token_t0", "aiger_token_t0", "aiger_token_small", "btor2_token_t0", "btor2_token_wide", "text_t0", "cnf_parser_t2", "aiger_ascii_t2", "aiger_binary_t2", "wcnf_parser_t2", "gcnf_parser_t2"],
+    "groups": ["cnf_token_t0", "aiger_token_t0", "aiger_token_small", "btor2_token_t0", "btor2_token_wide", "text_t0", "cnf_parser_t2", "aiger_ascii_t2", "aiger_binary_t2", "wcnf_parser_t2", "gcnf_parser_t2", "cnf_clause_lits_t1"],
     "claim": "SAT-based bounded model checking of the real number/limit tokenizers on a fully symbolic window against an independent wide-arithmetic reference: a token is accepted iff it is a representable number word within the stated limit, and the returned number equals the decimal number written; T1/T2 harnesses (where present) decide clause-count gating and limit installation from symbolic parser states.",
     "level_note": "Token-level (window N bytes). The optimised digit scanners are replaced by their specification in the quick tier (justified by C13, which proves the real scanners meet it) and run for real in the thorough tier. Message formatting and UTF-8 validation of message text are stubbed (outside the claim).",
     "functions": ["flussab_cnf::token::{uint, int, braced_uint, var_count, uint_count, clause_group}", "flussab_cnf::cnf::Parser::{new, parse_header, next_clause}", "flussab_aiger::token::{uint, binary_uint, delta_code, header_field, lit, symbol_index}", "flussab_aiger::{ascii,binary}::{Header::parse, Parser::new, ParseSymbols::next_symbol}", "flussab_btor2::token::{uint, positive_int, nonnegative_int, required_*_constant}", "flussab::text::{ascii_digits, signed_ascii_digits}"],
@@ -621,7 +641,7 @@ PROPERTIES["C01"] = {
 
 PROPERTIES["C04"] = {
     "level": "other",
-    "groups": ["reader_step", "text_t0", "cnf_token_t0", "aiger_token_t0", "btor2_token_t0", "cnf_parser_t2", "btor2_parser_t2", "wcnf_parser_t2", "gcnf_parser_t2"],
+    "groups": ["reader_step", "text_t0", "cnf_token_t0", "aiger_token_t0", "btor2_token_t0", "cnf_parser_t2", "btor2_parser_t2", "wcnf_parser_t2", "gcnf_parser_t2", "cnf_clause_lits_t1"],
     "claim": "I/O-error reporting by composition: (1) reader step with a terminal error: the delivered prefix is exposed as complete input, the error is parked once, no further reads; (2) LineReader::give_up*: a parked I/O error always wins over a syntax error; (3) every tokenizer harness runs with a possibly failing source and asserts that a parked error is never lost or invented, that every eof token succeeds only if the source did not fail, and that the end-of-input acceptors that bypass eof (AIGER comment section, BTOR2 comment body) do not hand out a value cut short by the failure; (4) T2: a clean end is reached only through the eof token.",
     "level_note": _COMPOSED_NOTE,
     "functions": ["DeferredReader::request_more", "LineReader::{give_up, give_up_at}", "{cnf,aiger,btor2}::token::eof", "flussab_aiger::token::{remaining_line_content, remaining_file_content}", "flussab_btor2::token::comment_body", "cnf::Parser::next_clause"],
@@ -635,7 +655,7 @@ PROPERTIES["C05"] = {
     "level": "model_checking",
     # panic-freedom and progress are checked by every harness of the tokenizer groups
     "all_harnesses": ["cnf_token_t0", "aiger_token_t0", "btor2_token_t0"],
-    "groups": ["text_t0", "cnf_token_t0", "aiger_token_t0", "aiger_token_small", "btor2_token_t0", "btor2_token_wide", "cnf_parser_t2", "aiger_ascii_t2", "aiger_binary_t2", "btor2_parser_t2", "wcnf_parser_t2", "gcnf_parser_t2"],
+    "groups": ["text_t0", "cnf_token_t0", "aiger_token_t0", "aiger_token_small", "btor2_token_t0", "btor2_token_wide", "cnf_parser_t2", "aiger_ascii_t2", "aiger_binary_t2", "btor2_parser_t2", "wcnf_parser_t2", "gcnf_parser_t2", "cnf_clause_lits_t1"],
     "claim": "Panic/overflow/termination freedom per unit: every harness of the tokenizer and parser-control tiers is checked by CBMC with Rust's checked semantics (arithmetic overflow, slice bounds, unwrap/expect, debug assertions are verification conditions) and with unwinding assertions (every scanner loop exits within the window), from symbolic LineReader/parser states, so error-location arithmetic (position - line_start, count - 1, (I+1)*2, limit -= count) is covered for all values.",
     "level_note": "Absence of overflow in the checked build implies the unchecked build computes the same values. Memory-allocation bounds are OUTSIDE: symbolic allocation sizes exhaust CBMC (the AIGER pre-allocation defect D6 was found by reading and fixed, no check reports it). Stack depth: no recursion in the parsers (not checked by the solver). T2 coverage: cnf next_clause/new, AIGER Header::parse/Parser::new/next_symbol; other control logic only at token level.",
     "functions": ["all token functions of the three format crates", "flussab::text::*", "cnf::Parser::{new,next_clause}", "aiger::{ascii,binary}::{Header::parse, Parser::new, next_symbol}"],
@@ -647,7 +667,7 @@ PROPERTIES["C05"] = {
 
 PROPERTIES["C08"] = {
     "level": "other",
-    "groups": ["reader_step", "text_t0", "cnf_token_t0", "cnf_token_small", "aiger_token_t0", "aiger_token_small", "btor2_token_t0"],
+    "groups": ["reader_step", "text_t0", "cnf_token_t0", "cnf_token_small", "aiger_token_t0", "aiger_token_small", "btor2_token_t0", "cnf_clause_lits_t1"],
     "claim": "Error locations by composition: (1) LineReader invariant (line >= 1, line_start <= position) is preserved by every token function and `line` grows by exactly the number of LF consumed with line_start just after the last one (SAT-checked per function on a symbolic window); (2) every error-producing token function reports line == current line and column == offset of the offending token - line_start + 1 (range errors via the mark, unexpected-token errors at the cursor), with a symbolic absolute base so large offsets are covered; (3) the reader keeps the mark at the same absolute offset across refills/realign (C02).",
     "level_note": _COMPOSED_NOTE + " The single-token corruption catalogue of the property is represented by the error branches of the token functions.",
     "functions": ["LineReader::{line_at_offset, give_up, give_up_at}", "all error-producing token functions of cnf/aiger/btor2", "DeferredReader::{set_mark, mark, request_more}"],
